@@ -441,6 +441,30 @@ theorem C05_int_to_float_exact_types (S : IntTy) (hS : S ∈ IntTy.all) (F : Flt
 example : Flt.ofInt f32 16777216 = .fin 16777216 ∧ Flt.ofInt f32 16777217 ≠ .fin 16777217 := by
   decide +kernel
 
+/-! ## Floating common type: the scaling step itself (finding F12) -/
+
+/-- Full statement: a finite floating input that is not reported lossy is scaled to a finite value
+("every … scaling step is … in range").  FALSE on the code: the overflow check compares `x` against
+the *rounded* quotient `max / mag`; when that quotient was rounded up, `x` equal to it passes the
+check while `x * mag` rounds to infinity.  (The accuracy of the floating overflow check is the
+floating clause of C04; no error-bound theorem is proved here.) -/
+def C05_float_scaling_in_range_full : Prop :=
+  ∀ F ∈ FltTy.all, ∀ k : Factor, k.wf = true → ∀ q : Rat, rne F q = .fin q →
+    lossyT (.flt F) (.flt F) k (.f (.fin q)) = .ok false →
+    ∃ r : Rat, midF F k (.f (.fin q)) = some (.fin r)
+
+/-- Counterexample (reproduced on the real code): `float` 1082401·2^103 × 31 (the same happens at
+`float` 0x1.12e0bep+98 × 10^9, found by the correspondence run). -/
+theorem C05_float_scaling_counterexample : ¬ C05_float_scaling_in_range_full := by
+  intro h
+  obtain ⟨r, hr⟩ := h f32 (by decide) ⟨31, 1, [(31, 1)]⟩ (by decide +kernel)
+    ((1082401 : Rat) * pow2 103) (by decide +kernel) (by decide +kernel)
+  have hm : midF f32 ⟨31, 1, [(31, 1)]⟩ (.f (.fin ((1082401 : Rat) * pow2 103))) =
+      some (.inf false) := by decide +kernel
+  rw [hm] at hr
+  cases hr
+
+
 /-- Every ordered pair of the eleven reps is handled by the static_cast checkers (no `UNEXPLORED`
 situation, which would be a compile error). -/
 theorem C05_cast_checkable : ∀ s ∈ ArithTy.all, ∀ d ∈ ArithTy.all, castCheckable s d = true := by
